@@ -192,6 +192,11 @@ def insertion_cases():
             mk('missing-space-before-list', ['_m4 abc[1 2]'], CIF_MISSING_SPACE, lambda t, c: set_item(t, '_m4', u('abc')))
             # a table key outside any table: the colon is where white space is assumed; what follows is a stray value
             mk('missing-space-at-key-colon', ["_m5 'k':v"], CIF_MISSING_SPACE, lambda t, c: set_item(t, '_m5', q('k')))
+        # the same inside a list, where a key - quoted or a text block - is just a value lacking its separator
+        mk('missing-space-at-key-colon-in-list', ["_m6 ['k':v 2]"], CIF_MISSING_SPACE,
+           lambda t, c: set_item(t, '_m6', ('list', (q('k'), u(':v'), u('2')))))
+        mk('missing-space-at-text-block-colon-in-list', ['_m7 [', ';txt', ';:v 2]'], CIF_MISSING_SPACE,
+           lambda t, c: set_item(t, '_m7', ('list', (q('txt'), u(':v'), u('2')))))
         if slot != 'after-loop':
             mk('stray-close-bracket', [']'], CIF_UNEXPECTED_DELIM)
             mk('stray-close-brace', ['}'], CIF_UNEXPECTED_DELIM)
